@@ -19,9 +19,9 @@ type C16 struct {
 	dataFirst  map[string]time.Time   // canonical bytes of the content hash → block time of its first successful anchoring (any message)
 	genesisIRI map[string]bool        // IRIs that came with the genesis (their content hashes are not known to the ghost)
 	firstTS    int
-	byID       map[string]string      // id → iri
-	att        map[string]time.Time   // iri|attestor → time
-	reg        map[string]bool        // resolver|iri
+	byID       map[string]string    // id → iri
+	att        map[string]time.Time // iri|attestor → time
+	reg        map[string]bool      // resolver|iri
 	scans      int
 	collided   strset // IRIs whose id was allocated at collision index >= 1 (detected via shared 4-byte prefix)
 	reanchors  int
